@@ -36,10 +36,23 @@ def run(ctx):
     for sc in W.random_big(rnd, 200 if q else 2000, [1, 2, 3, 5, 10, 25, 50]):
         S.append(dict(sc, api="bulkwalk", cut=rnd.choice(cuts + ["seed:%d" % rnd.randrange(10 ** 6)]),
                       proto=rnd.choice(["v2c", "v2c", "v2c"] + W.PROTO_SAMPLE)))
+    # many roots in one call (a request with more than 100 repeaters is still an ordinary request)
+    for nroots in (99, 100, 101, 130):
+        manydb = [[k, j] for k in range(1, nroots + 1) for j in range(1, 1 + (k % 3))]
+        for m in (1, 2, 5):
+            S.append(dict(db=manydb, roots=[[k] for k in range(1, nroots + 1)], bulk=m, api="bulkwalk", cut="full", proto="v2c"))
+    # the overshoot of a bulk response may run into objects the library knows by name (usmStats counters ...): ordinary objects for every level
+    special = [[0, 1, 0]] + [[1, k, 0] for k in range(1, 7)] + [[2, 1, 0]]
+    for pfx in ("usm", "sys", "snmpv2"):
+        for proto in ["v2c"] + W.PROTO_SAMPLE:
+            for roots in ([[0]], [[1]], [[0], [2]], [[1, 2], [0]]):
+                for m in (1, 2, 3, 10):
+                    S.append(dict(db=special, roots=roots, bulk=m, api="bulkwalk", cut=rnd.choice(cuts), proto=proto, pfx=pfx))
     # the GETNEXT walk of the same scenario is validated by the same monitor (C01); both are judged against
     # Strict/Opt of the database, so equality of the two result sets (modulo root instances) follows per scenario
     ctx.rule = ("TLC-enumerated (database, root list) scenarios x max-repetitions x agent truncation policy "
-                "{full, one repetition, minus one binding, one row plus one, seeded prefix} through Client.bulkwalk / PyWrapper.bulkwalk; "
+                "{full, one repetition, minus one binding, one row plus one, seeded prefix} through Client.bulkwalk / PyWrapper.bulkwalk; the universe placed over the usmStats / "
+                "system / snmpV2 subtrees (overshoot into objects the library knows by name) for v2c and all v3 levels; "
                 "the bulk result is judged against the same Strict/Opt sets as the GETNEXT walk; non-trivial = >= 2 requests and >= 1 instance")
     W.drive_and_judge(ctx, S)
     ctx.assumptions = ["conformant truncation = any prefix of the repetition matrix holding at least one full repetition",
